@@ -581,3 +581,110 @@ class TrackerInit(Spec):
 
 
 TRACKER_INIT_UNITS = [TrackerInit(s) for s in ("EF", "RK2", "RK4", "", "Euler")]
+
+
+# ---------------------------------------------------------------- update after a history (constructor + an earlier update)
+# The contract of update is stated over a pre-state the contract describes. A tracker object may carry further
+# attributes (values kept from earlier calls); what they hold is fixed by the code that wrote them. This unit builds
+# the tracker with the REAL constructor, lets the REAL update run once on an arbitrary earlier state, lets the
+# environment replace the state by an arbitrary well-formed one (other particles, same or different number), and then
+# verifies the next update against the same specification: nothing carried over from the earlier call may matter.
+
+
+class UpdateAfterHistory(Update):
+    # the constructor and the earlier update are EXECUTED (their bodies are the history), not used through contracts
+    inline = tuple(Update.inline) + ("ladim.tracker.Tracker.__init__", "ladim.tracker.Tracker.update")
+
+    def __init__(self, scheme=""):
+        super().__init__(scheme)
+        self.name = f"Tracker.update[{scheme or 'no advection'}, after the real constructor and an earlier update on another state]"
+        self.externals = dict(getattr(self, "externals", {}) or {})
+        self.externals["numpy.random.default_rng"] = lambda interp, *a, **k: Rng()
+
+    def inputs(self, cx):
+        from pyvc.interp import Interp
+
+        base = Update.inputs(self, cx)
+        calls = cx.ghost.get("history_inputs_calls", 0)
+        cx.ghost["history_inputs_calls"] = calls + 1
+        trk0 = base.self
+        if calls >= 1:
+            # the specification's copy: the contract-described pre-state; only the draw counter continues
+            trk0.attrs["rng"].draws = cx.ghost.get("history_draws", 0)
+            return base
+        t0 = trk0.attrs
+        mods = t0["modules"]
+        st, grid, force = mods["state"], mods["grid"], mods["forcing"]
+        # --- the real constructor
+        dt_int = z3.Int("dt_seconds")
+        cx.assume(z3.And(dt_int > 0, t0["dt"] == z3.ToReal(dt_int)))  # dt is a whole number of seconds (timedelta64[s])
+        timer = Obj("ladim.timekeeper.TimeKeeper", dt=dt_int)
+        hn = z3.Int("hist_n")
+        cx.assume(hn >= 0)
+        hst = make_state(cx, hn, prefix="hist_")
+        hforce = AbstractForce(grid, hn, W=sym_array("hist_force_w", (hn,), "real"))
+        modules = dict(state=hst, grid=grid, forcing=hforce, time=timer)
+        trk = Obj("ladim.tracker.Tracker")
+        interp = Interp(cx)
+        mod, cname, node = cx.repo.lookup("ladim.tracker.Tracker.__init__")
+        n_obl = len(cx.obls)
+        interp.call_value(BoundMethod(trk, PyFunc("ladim.tracker.Tracker.__init__", mod, cname, node)), [],
+                          dict(advection=self.scheme, diffusion=t0["D"], vertdiff=t0["Dz"], vertical_advection=t0["vertical_advection"], modules=modules))
+        # --- an earlier update on an arbitrary well-formed state (its own obligations are not what is verified here)
+        hv = hst.attrs["variables"]
+        hx, hy = hv["X"].fn, hv["Y"].fn
+        cx.assume_item(valid_pos(grid, hv["X"], hv["Y"]))
+        cx.assume_item(ForallP(hn, lambda p: at_sea(grid, hx(p), hy(p))))
+        cx.assume_item(ForallP(hn, lambda p: z3.Implies(hv["active"].fn(p), hv["alive"].fn(p))))
+        mod, cname, node = cx.repo.lookup("ladim.tracker.Tracker.update")
+        interp.call_value(BoundMethod(trk, PyFunc("ladim.tracker.Tracker.update", mod, cname, node)), [], {})
+        del cx.obls[n_obl:]
+        cx.ghost["history_draws"] = trk.attrs["rng"].draws if isinstance(trk.attrs.get("rng"), Rng) else 0
+        # --- the environment replaces the state (release, removal, IBM ...): the contract's arbitrary pre-state
+        trk.attrs["modules"] = dict(state=st, grid=grid, forcing=force, time=timer)
+        return Args(self=trk)
+
+
+class DiffuseAfterHistory(Diffuse):
+    """diffuse on a tracker built by the real constructor that has served an earlier diffuse call (another particle
+    count or the same): the call draws two FRESH vectors (draw counter + 2), nothing is reused."""
+
+    name = "Tracker.diffuse[after the real constructor and an earlier diffuse call]"
+    inline = ("ladim.tracker.Tracker.__init__", "ladim.tracker.Tracker.diffuse")
+
+    def __init__(self, same_count):
+        self.same_count = same_count
+        self.name = f"Tracker.diffuse[after the real constructor and an earlier call for {'the same' if same_count else 'another'} number of particles]"
+        self.externals = {"numpy.random.default_rng": lambda interp, *a, **k: Rng()}
+
+    def inputs(self, cx):
+        from pyvc.interp import Interp
+
+        base = Diffuse.inputs(self, cx)
+        calls = cx.ghost.get("history_inputs_calls", 0)
+        cx.ghost["history_inputs_calls"] = calls + 1
+        t0 = base.self.attrs
+        if calls >= 1:
+            t0["rng"].draws = cx.ghost.get("history_draws", 0)
+            return base
+        dt_int = z3.Int("dt_seconds")
+        cx.assume(z3.And(dt_int > 0, t0["dt"] == z3.ToReal(dt_int)))
+        trk = Obj("ladim.tracker.Tracker")
+        interp = Interp(cx)
+        n_obl = len(cx.obls)
+        mod, cname, node = cx.repo.lookup("ladim.tracker.Tracker.__init__")
+        interp.call_value(BoundMethod(trk, PyFunc("ladim.tracker.Tracker.__init__", mod, cname, node)), [],
+                          dict(advection="", diffusion=t0["D"], vertdiff=t0["Dz"], vertical_advection=t0["vertical_advection"], modules=dict(time=Obj("ladim.timekeeper.TimeKeeper", dt=dt_int))))
+        hn = base.num_particles if self.same_count else z3.Int("hist_n")
+        cx.assume(V.to_z3(hn) >= 0)
+        mod, cname, node = cx.repo.lookup("ladim.tracker.Tracker.diffuse")
+        interp.call_value(BoundMethod(trk, PyFunc("ladim.tracker.Tracker.diffuse", mod, cname, node)), [hn], {})
+        del cx.obls[n_obl:]
+        cx.ghost["history_draws"] = trk.attrs["rng"].draws if isinstance(trk.attrs.get("rng"), Rng) else 0
+        return Args(self=trk, num_particles=base.num_particles)
+
+    def ensures(self, cx, a, result):
+        return []
+
+
+HISTORY_UNITS = [UpdateAfterHistory(""), UpdateAfterHistory("EF"), DiffuseAfterHistory(True), DiffuseAfterHistory(False)]
